@@ -25,7 +25,7 @@ ASSUMPTIONS = ['domain as stated by the property: rectangular tables, unique key
                'variable / value field names; fromdicts(dicts(t)) needs >= 1 data row']
 KINDS = ['melt-recast', 'recast-direct', 'melt', 'transpose', 'flatten', 'unflatten-period', 'pivot', 'unpack', 'unpackdict', 'capture', 'split', 'splitdown',
          'dicts-roundtrip', 'columns-roundtrip']
-REQUIRED = (['views-read-twice'] + ['kind:' + k for k in KINDS] + ['none-key', 'compound-key', 'key-not-leading', 'one-column', 'period=1', 'period=width',
+REQUIRED = (['views-read-twice', 'regex-flags', 'unpackdict:keys-from-a-sample-shorter-than-the-table'] + ['kind:' + k for k in KINDS] + ['none-key', 'compound-key', 'key-not-leading', 'one-column', 'period=1', 'period=width',
             'pivot-missing-pair', 'field-by-index', 'include-original', 'explicit-variables-permuted', 'fromdicts-sample<nrows'])
 VALS = [None, 0, 1, 2.5, 'a', 'b', '', b'x', (1, 2), gen.D(2020, 1, 1), True]
 KEYS = [None, 1, 2, 3, 'a', 'b', b'a', (1, 2), 2.5, gen.D(2020, 1, 1)]
@@ -110,17 +110,21 @@ def cases(ctx):
             elif kind == 'unpackdict':
                 c['keys'] = rng.choice([None, ['p'], ['q', 'p'], ['zz', 'r']])
                 c['missing'] = rng.choice([None, 'M'])
+                c['samplesize'] = rng.choice([None, None, 1, 2]) if c['keys'] is None else None
             elif kind == 'capture':
-                c['pattern'] = rng.choice([r'(\w)(\d*)', r'^(.)', r'(a)|(b)', r'([a-z]+)\W?(\d+)?'])
+                c['pattern'] = rng.choice([r'(\w)(\d*)', r'^(.)', r'(a)|(b)', r'([a-z]+)\W?(\d+)?', r'(A)|(B)', r'([A-Z]+)\W?(\d+)?'])
                 c['newfields'] = rng.choice([['g1', 'g2'], ['g1']])
                 c['fill'] = rng.choice([['F1', 'F2'], ['F']])
+                c['flags'] = rng.choice([0, 0, int(re.I)])
             elif kind == 'split':
-                c['pattern'] = rng.choice([',', r'\s', '-', 'b'])
+                c['pattern'] = rng.choice([',', r'\s', '-', 'b', 'B', 'X|A'])
                 c['newfields'] = rng.choice([['s1', 's2'], ['s1', 's2', 's3'], None])
                 c['maxsplit'] = rng.choice([0, 0, 1])
+                c['flags'] = rng.choice([0, 0, int(re.I)])
             else:
-                c['pattern'] = rng.choice([',', r'\s', '-', 'b'])
+                c['pattern'] = rng.choice([',', r'\s', '-', 'b', 'B', 'X|A'])
                 c['maxsplit'] = rng.choice([0, 0, 1])
+                c['flags'] = rng.choice([0, 0, int(re.I)])
         yield c
 
 
@@ -346,7 +350,10 @@ def judge(case, ctx):
             if isinstance(field, int):
                 field = hdr[fi]      # documented for a field name
             keys, missing = case['keys'], case['missing']
-            ks = list(keys) if keys else sorted({k for r in rows for k in r[fi]})
+            ss = case.get('samplesize')
+            ks = list(keys) if keys else sorted({k for r in (rows if ss is None else rows[:ss]) for k in r[fi]})
+            if ss is not None and len(rows) > ss:
+                ctx.seen('unpackdict:keys-from-a-sample-shorter-than-the-table')
             exp = [tuple(base_hdr + ks)]
             for r in rows:
                 exp.append(tuple(base(r) + [r[fi].get(k, missing) for k in ks]))
@@ -355,10 +362,16 @@ def judge(case, ctx):
                 kw['keys'] = keys
             if missing is not None:
                 kw['missing'] = missing
+            if ss is not None:
+                kw['samplesize'] = ss
             got = util.attempt_rows_twice(lambda: petl.unpackdict(table, field, **kw))
             return _diff(got, exp, 'unpackdict')
         if kind == 'capture':
-            prog = re.compile(case['pattern'])
+            fl = case.get('flags', 0)
+            fkw = {'flags': fl} if fl else {}
+            if fl:
+                ctx.seen('regex-flags')
+            prog = re.compile(case['pattern'], fl)
             ng = prog.groups
             names = (case['newfields'] * 2)[:ng] if len(case['newfields']) < ng else case['newfields'][:ng]
             names = ['g%d' % (i + 1) for i in range(ng)]
@@ -367,22 +380,24 @@ def judge(case, ctx):
             for r in rows:
                 m = prog.search(r[fi])
                 exp.append(tuple(base(r) + (list(m.groups()) if m else list(fill))))
-            got = util.attempt_rows_twice(lambda: petl.capture(table, field, case['pattern'], names, include_original=inc, fill=fill))
+            got = util.attempt_rows_twice(lambda: petl.capture(table, field, case['pattern'], names, include_original=inc, fill=fill, **fkw))
             return _diff(got, exp, 'capture', {'field': field, 'include_original': inc})
+        fl = case.get('flags', 0)
+        fkw = {'flags': fl} if fl else {}
         if kind == 'split':
-            prog = re.compile(case['pattern'])
+            prog = re.compile(case['pattern'], fl)
             names = list(case['newfields'] or [])
             exp = [tuple(base_hdr + names)]
             for r in rows:
                 exp.append(tuple(base(r) + prog.split(r[fi], case['maxsplit'])))
-            got = util.attempt_rows_twice(lambda: petl.split(table, field, case['pattern'], case['newfields'], include_original=inc, maxsplit=case['maxsplit']))
+            got = util.attempt_rows_twice(lambda: petl.split(table, field, case['pattern'], case['newfields'], include_original=inc, maxsplit=case['maxsplit'], **fkw))
             return _diff(got, exp, 'split', {'field': field, 'include_original': inc})
-        prog = re.compile(case['pattern'])
+        prog = re.compile(case['pattern'], fl)
         exp = [tuple(hdr)]
         for r in rows:
             for piece in prog.split(r[fi], case['maxsplit']):
                 exp.append(tuple(piece if i == fi else r[i] for i in range(len(hdr))))
-        got = util.attempt_rows_twice(lambda: petl.splitdown(table, field, case['pattern'], maxsplit=case['maxsplit']))
+        got = util.attempt_rows_twice(lambda: petl.splitdown(table, field, case['pattern'], maxsplit=case['maxsplit'], **fkw))
         return _diff(got, exp, 'splitdown')
 
     if kind == 'dicts-roundtrip':
